@@ -47,7 +47,7 @@ def projKinds : List (String × List String) :=
    ("C03", ["pb", "pe", "cb", "ce", "cd", "db"]),
    ("C16", ["cb", "ce", "fi"]),
    ("C20", ["pb", "pe", "cb", "ce", "fi", "cd", "in"]),
-   ("FUN", ["pb", "pe", "cb", "ce"]),
+   ("FUN", ["pb", "pe", "cb", "ce", "db"]),
    ("GRP", ["pb", "pe", "cb", "ce", "cd", "in", "rm", "an"])]
 
 def firstTok (l : String) : String := (l.splitOn " ").headD ""
